@@ -545,7 +545,7 @@ use crate::aspec::*;''')
 
     pa = un.item(r'^pub\(crate\) fn parse_attribute<').clean()
     P = '(input.rv().start - old(input).rv().start)'
-    pa.splice('parse_attribute', ret='res', ensures=parse_clauses(), owners=OWN,
+    pa.splice('parse_attribute', ret='res', ensures=parse_clauses(), owners=OWN, split=3,
               loops={0: f'''invariant within(old(input).rv(), input.rv()),
                   ind_form(old(input).rv(), spec.sform().0 as nat, 0) == ind_form(old(input).rv(), form.0 as nat, {P}),
                   ind_pos(old(input).rv(), spec.sform().0 as nat, 0) == ind_pos(old(input).rv(), form.0 as nat, {P}),
@@ -553,7 +553,8 @@ use crate::aspec::*;''')
               before=[('let dynamic_form = input.read_uleb128_u16()?;',
                        f'proof {{ lemma_ind_step(old(input).rv(), {P} as int); }}'),
                       ('let string = input.read_null_terminated_slice()?;', 'let ghost v0 = input.rv();')],
-              after=[('let string = input.read_null_terminated_slice()?;',
+              after=[('let mut form = spec.form();', 'proof { reveal(attr_end); }'),
+                     ('let string = input.read_null_terminated_slice()?;',
                       'proof { lemma_cstr_len0(v0, string.rv().len); let b0 = old(input).rv(); let p0 = v0.start - b0.start; '
                       'assert forall|j: int| p0 <= j < p0 + string.rv().len implies #[trigger] b0.at(j) != 0 by { assert(v0.at(j - p0) != 0); } }')])
     sk.add('read::unit', pa)
@@ -577,9 +578,11 @@ use crate::aspec::*;''')
                    ensures within({B}, input.rv()), 0 <= it.index@ < specs@.len(),
                    {TOTAL} == attrs_end({B}, encoding, specs@, it.index@ + 1, {PEND}),
                    decreases input.rv().len'''},
-        before=[('let dynamic_form = input.read_uleb128_u16()?;', f'proof {{ lemma_ind_step({B}, {PEND} as int); }}'),
+        before=[('let dynamic_form = input.read_uleb128_u16()?;', f'proof {{ lemma_attr_end_indirect({B}, encoding, {PEND} as int); }}'),
+                ('match form {', f'proof {{ lemma_attr_end_var({B}, encoding, form.0 as nat, {PEND} as int); }}'),
                 ('let _ = input.read_null_terminated_slice()?;', 'let ghost v0 = input.rv();')],
-        after=[('let _ = input.read_null_terminated_slice()?;', 'proof { lemma_cstr_len0(v0, (input.rv().start - v0.start - 1) as nat); }')])
+        after=[('if let Some(len) = get_attribute_size(form, encoding) {', f'proof {{ lemma_attr_end_fixed({B}, encoding, form.0 as nat, {PEND} as int, len as nat); }}'),
+               ('let _ = input.read_null_terminated_slice()?;', 'proof { lemma_cstr_len0(v0, (input.rv().start - v0.start - 1) as nat); }')])
     sk.add('read::unit', sa)
     return sk
 
